@@ -1,0 +1,17 @@
+//go:build verif
+
+package msgpacker
+
+// VerifMemoryCurrent returns the global buffered-bytes counter, read under the protector's own lock.
+func VerifMemoryCurrent() int {
+	memoryCheck.lock.RLock()
+	defer memoryCheck.lock.RUnlock()
+	return memoryCheck.current
+}
+
+// VerifMemoryMax returns the process-wide memory budget in bytes (0 while unset).
+func VerifMemoryMax() int {
+	memoryCheck.lock.RLock()
+	defer memoryCheck.lock.RUnlock()
+	return memoryCheck.max
+}
